@@ -1,2 +1,3 @@
 pub mod rat;
+pub mod refparse;
 pub mod sem;
